@@ -33,11 +33,11 @@ add('C15', 'exploration', 'exhaustive decision-table enumeration + property-base
     'Real TLS handshakes and chain validation are out of scope (scripted socket, only Config.get_ssl_context() replaced); peers are reached by IP literal as tcpcl.agent.Agent.connect() does (no DNS-ID reference) or, in by_name cases, by a host name handed to the handler directly.',
     'DESIGN.md section 3 C15')
 add('C18', 'exploration', 'model-based property testing with a marshalling model at the D-Bus boundary and a queue/idle reference model',
-    'Every signal and method return of generated TCPCL (two real endpoints) and UDPCL histories passes through a model of dbus-python marshalling against the declared signature; queue queries, pops and the idle indication are compared with a reference model computed from the recorded event history at the moment of each query.',
-    'vlib/dbusmodel.py is a model of the documented marshalling rules, not the library; bp/cla.py (needs a session bus) is not driven.',
+    'Every signal and method return of generated TCPCL (two real endpoints) and UDPCL histories passes through a model of dbus-python marshalling against the declared signature; queue queries, pops and the idle indication are compared with a reference model computed from the recorded event history at the moment of each query.  Stack histories drive the real bp/cla.py adaptors of three whole nodes (BP agent, TCPCL and UDPCL agents, virtual message bus, simulated network): every transfer that completed on the wire must reach the BP agent once with the sender octets, the receive queues must end empty, and every value crossing the bus must marshal.',
+    'vlib/dbusmodel.py and the virtual bus (shims/dbus/bus.py) are models of the documented dbus-python behaviour, not the library.',
     'DESIGN.md section 3 C18')
 add('C10', 'exploration', 'model-based property testing of receive histories against a seen-set / first-match routing reference model',
-    'Generated routing tables and receive histories (repeats, look-alike identities, own-source bundles, multi-match destinations) are fed to a real BP agent; after every bundle the application deliveries, end-of-processing records and bundles handed to the convergence layer are compared with a reference model.',
+    'Generated routing tables and receive histories (repeats, look-alike identities, own-source bundles, multi-match destinations) are fed to a real BP agent; after every bundle the application deliveries, end-of-processing records and bundles handed to the convergence layer are compared with a reference model.  The agent runs with the application set of a deployment (admin, fragment, bpsec, sand, safe): nothing but the addressed application may consume a bundle.  Stack histories (three whole nodes: BP agent + real bp/cla.py adaptors + TCPCL / UDPCL agents over a virtual bus and simulated network, sessions cut and re-made) are judged from the octets on the wire: a received bundle is forwarded to its next hop at most once and delivered at most once, only at its destination.',
     'Patterns are anchored so match/search agree; fragments routed to deliver are judged by C06; Agent._finish_bundle is wrapped on the instance for observation.',
     'DESIGN.md section 3 C10')
 add('C11', 'exploration', 'property-based testing of forwarding histories; wire-level differential with an independent RFC 9171 codec',
